@@ -1854,7 +1854,8 @@ class Array:
         res._set_shape()
         res.qtotal = self.qtotal.copy()  # modified!
         for a in axes:
-            res.qtotal -= self.legs[a].get_charge(0)
+            # charge of the block containing the (single) index, which needs not be the first block
+            res.qtotal -= self.legs[a].get_charge(self.legs[a].get_qindex(0)[0])
         res.qtotal = self.chinfo.make_valid(res.qtotal)
 
         labels = self.get_leg_labels()
